@@ -20,6 +20,7 @@ mod ops_lock;
 mod ops_renameplan;
 mod ops_clap;
 mod ops_scope;
+mod ops_c04late;
 
 /// every `ops_*.rs` owns some operations: `dispatch(fields) -> Option<String>` (None = not mine)
 const HANDLERS: &[fn(&[&str]) -> Option<String>] = &[
@@ -37,6 +38,7 @@ const HANDLERS: &[fn(&[&str]) -> Option<String>] = &[
     ops_renameplan::dispatch,
     ops_clap::dispatch,
     ops_scope::dispatch,
+    ops_c04late::dispatch,
 ];
 
 fn dispatch(fields: &[&str]) -> String {
